@@ -31,9 +31,13 @@ public:
         o << " | E " << c->edge_set_.size();
         for(const edge& e : c->edge_set_){
             o << " ; " << e.n1() << ' ' << e.n2() << ' ';
-            try{ const unsigned v = e.f1(); o << v; }catch(const std::bad_optional_access&){ o << '-'; }
-            o << ' ';
-            try{ const unsigned v = e.f2(); o << v; }catch(const std::bad_optional_access&){ o << '-'; }
+            // edge::f1()/f2() are noexcept and call optional::value(): never call them on an empty slot
+            if(e.is_manifold()){ o << e.f1() << ' ' << e.f2(); }
+            else{
+                std::optional<unsigned> only;
+                for(unsigned k = 0; k < c->face_lst_.size(); k++){ if(e.has_face(k)){ only = k; break; } }
+                if(only) o << only.value() << " -"; else o << "- -";
+            }
         }
         o << " | FN";
         for(unsigned i : c->free_node_queue_) o << ' ' << i;
@@ -69,7 +73,7 @@ int main(){
     cell_ptr c;
     while(std::getline(std::cin, line)){
         auto w = vproto::split(line);
-        if(w.empty()){ std::cout << "bad-op\n"; continue; }
+        if(w.empty()){ std::cout << "bad-op\n" << std::flush; continue; }
         try{
             if(w[0] == "cell"){ pos.clear(); tris.clear(); c.reset(); std::cout << "ok\n"; }
             else if(w[0] == "n" && w.size() == 4){ for(int i = 1; i < 4; i++) pos.push_back(from_hex(w[i])); std::cout << "ok\n"; }
@@ -94,7 +98,7 @@ int main(){
             }
             else if((w[0] == "split" || w[0] == "merge" || w[0] == "swap" || w[0] == "canmerge") && w.size() == 3 && c){
                 auto eo = c->get_edge((unsigned) std::stoul(w[1]), (unsigned) std::stoul(w[2]));
-                if(!eo.has_value()){ std::cout << "noedge\n"; continue; }
+                if(!eo.has_value()){ std::cout << "noedge\n" << std::flush; continue; }
                 edge e = eo.value();
                 local_mesh_refiner lmr(1.0, 2.0, true);
                 edge_set chk;
@@ -102,7 +106,7 @@ int main(){
                     if(w[0] == "split") lmr.split_edge(e, c, chk);
                     else if(w[0] == "merge") lmr.merge_edge(e, c, chk);
                     else if(w[0] == "swap") lmr.swap_edge(e, c);
-                    else { std::cout << (lmr.can_be_merged(e, c) ? "true" : "false") << "\n"; continue; }
+                    else { std::cout << (lmr.can_be_merged(e, c) ? "true" : "false") << "\n" << std::flush; continue; }
                     std::cout << "ok\n";
                 }catch(const std::exception& ex){ std::cout << "err " << exc_name(ex) << "\n"; }
             }
@@ -112,6 +116,7 @@ int main(){
             }
             else std::cout << "bad-op\n";
         }catch(const std::exception& ex){ std::cout << "err " << exc_name(ex) << "\n"; }
+        std::cout.flush();
     }
     return 0;
 }
